@@ -127,7 +127,8 @@ func replayLimiter(c rlCfg, steps []rlStep) (mis string, at int, nontrivial bool
 				got = -1
 			case errors.Is(err, context.DeadlineExceeded):
 				// the wait was longer than the deadline: returned at the deadline, and the spec's wait must indeed be longer
-				if s.Wait <= s.D || got != time.Duration(s.D)*u {
+				// (a wait that ends ON the deadline instant: the permit timer and the context are both ready, either may win)
+				if s.Wait < s.D || got != time.Duration(s.D)*u {
 					return fmt.Sprintf("BlockDl(k=%d,maxWait=%d,deadline=%d): context error after %v, spec wait %d", s.K, s.Mw, s.D, got, s.Wait), i, true
 				}
 				got = time.Duration(s.Wait) * u
